@@ -31,10 +31,20 @@ def main():
     ap.add_argument("--tier", default="quick")
     ap.add_argument("--src")
     a = ap.parse_args()
-    wt = "/tmp/seed-%s" % a.prop
-    src = a.src or os.path.join(wt, "SEEDED", a.k)
     sid = "%s-%s" % (a.prop, a.k)
     dst = os.path.join(ROOT, "seeded", sid)
+    wt = "/tmp/seed-%s" % a.prop
+    made_wt = False
+    if not os.path.isdir(wt):
+        # the sub-agents' worktrees are gone: make a scratch worktree of /repo's HEAD for this run and remove it afterwards
+        wt = "/tmp/seedwt-%s-%d" % (sid, os.getpid())
+        subprocess.run(["git", "-C", "/repo", "worktree", "add", "-q", "--detach", wt, "HEAD"], check=True)
+        made_wt = True
+        os.makedirs(os.path.join(wt, "SEEDED", a.k))
+        for f in os.listdir(dst):
+            if f != "meta.json":
+                shutil.copy(os.path.join(dst, f), os.path.join(wt, "SEEDED", a.k, f))
+    src = a.src or os.path.join(wt, "SEEDED", a.k)
     os.makedirs(dst, exist_ok=True)
     for f in ("patch.diff", "demo.py", "notes.md"):
         if os.path.exists(os.path.join(src, f)) and os.path.abspath(src) != os.path.abspath(dst):
@@ -71,6 +81,8 @@ def main():
     finally:
         sh("git checkout -- adb_shell", wt)
         sh("rm -f NOWHERE", wt)
+        if made_wt:
+            subprocess.run(["git", "-C", "/repo", "worktree", "remove", "--force", wt])
     meta["confirmed"] = bool(meta["demo_on_clean_tree"] == 0 and meta["demo_with_change"] != 0 and "passed" in meta.get("repo_tests_with_change", "") and "failed" not in meta.get("repo_tests_with_change", ""))
     meta["caught_by"] = [c for c, r in meta["checks"].items() if r["exit"] == 1]
     old = {}
